@@ -21,7 +21,13 @@
 typedef struct {
 	sqfs_dir_iterator_t base;
 
-	struct dirent *ent;
+	/* names of all entries, sorted with strcmp, so the order in which
+	   entries are reported does not depend on the host file system */
+	char **names;
+	size_t count;
+	size_t index;
+
+	const char *name;
 	struct stat sb;
 	dev_t device;
 	int state;
@@ -32,8 +38,60 @@ static void dir_destroy(sqfs_object_t *obj)
 {
 	unix_dir_iterator_t *it = (unix_dir_iterator_t *)obj;
 
+	for (size_t i = 0; i < it->count; ++i)
+		free(it->names[i]);
+
+	free(it->names);
 	closedir(it->dir);
 	free(it);
+}
+
+static int compare_names(const void *lhs, const void *rhs)
+{
+	return strcmp(*((const char *const *)lhs), *((const char *const *)rhs));
+}
+
+static int read_names(unix_dir_iterator_t *it)
+{
+	size_t max = 0;
+
+	for (;;) {
+		struct dirent *ent;
+		char *name;
+
+		errno = 0;
+		ent = readdir(it->dir);
+
+		if (ent == NULL) {
+			if (errno != 0)
+				return SQFS_ERROR_IO;
+			break;
+		}
+
+		if (it->count == max) {
+			size_t new_max = max ? max * 2 : 32;
+			char **new = realloc(it->names,
+					     new_max * sizeof(it->names[0]));
+			if (new == NULL)
+				return SQFS_ERROR_ALLOC;
+
+			it->names = new;
+			max = new_max;
+		}
+
+		name = strdup(ent->d_name);
+		if (name == NULL)
+			return SQFS_ERROR_ALLOC;
+
+		it->names[it->count++] = name;
+	}
+
+	if (it->count > 0) {
+		qsort(it->names, it->count, sizeof(it->names[0]),
+		      compare_names);
+	}
+
+	return 0;
 }
 
 static int dir_read_link(sqfs_dir_iterator_t *base, char **out)
@@ -48,7 +106,7 @@ static int dir_read_link(sqfs_dir_iterator_t *base, char **out)
 	if (it->state < 0)
 		return it->state;
 
-	if (it->state > 0 || it->ent == NULL)
+	if (it->state > 0 || it->name == NULL)
 		return SQFS_ERROR_NO_ENTRY;
 
 	if ((sizeof(it->sb.st_size) > sizeof(size_t)) &&
@@ -63,7 +121,7 @@ static int dir_read_link(sqfs_dir_iterator_t *base, char **out)
 	if (str == NULL)
 		return SQFS_ERROR_ALLOC;
 
-	ret = readlinkat(dirfd(it->dir), it->ent->d_name,
+	ret = readlinkat(dirfd(it->dir), it->name,
 			 str, (size_t)it->sb.st_size);
 	if (ret < 0) {
 		free(str);
@@ -84,26 +142,21 @@ static int dir_next(sqfs_dir_iterator_t *base, sqfs_dir_entry_t **out)
 	if (it->state != 0)
 		return it->state;
 
-	errno = 0;
-	it->ent = readdir(it->dir);
-
-	if (it->ent == NULL) {
-		if (errno != 0) {
-			it->state = SQFS_ERROR_IO;
-		} else {
-			it->state = 1;
-		}
-
+	if (it->index >= it->count) {
+		it->name = NULL;
+		it->state = 1;
 		return it->state;
 	}
 
-	if (fstatat(dirfd(it->dir), it->ent->d_name,
+	it->name = it->names[it->index++];
+
+	if (fstatat(dirfd(it->dir), it->name,
 		    &it->sb, AT_SYMLINK_NOFOLLOW)) {
 		it->state = SQFS_ERROR_IO;
 		return it->state;
 	}
 
-	*out = sqfs_dir_entry_create(it->ent->d_name, it->sb.st_mode, 0);
+	*out = sqfs_dir_entry_create(it->name, it->sb.st_mode, 0);
 	if ((*out) == NULL) {
 		it->state = SQFS_ERROR_ALLOC;
 		return it->state;
@@ -137,14 +190,14 @@ static int dir_open_file_ro(sqfs_dir_iterator_t *base, sqfs_istream_t **out)
 	if (it->state < 0)
 		return it->state;
 
-	if (it->state > 0 || it->ent == NULL)
+	if (it->state > 0 || it->name == NULL)
 		return SQFS_ERROR_NO_ENTRY;
 
-	fd = openat(dirfd(it->dir), it->ent->d_name, O_RDONLY);
+	fd = openat(dirfd(it->dir), it->name, O_RDONLY);
 	if (fd < 0)
 		return SQFS_ERROR_IO;
 
-	ret = sqfs_istream_open_handle(out, it->ent->d_name,
+	ret = sqfs_istream_open_handle(out, it->name,
 				       fd, SQFS_FILE_OPEN_READ_ONLY);
 	if (ret != 0) {
 		int err = errno;
@@ -174,10 +227,10 @@ static int dir_open_subdir(sqfs_dir_iterator_t *base, sqfs_dir_iterator_t **out)
 	if (it->state < 0)
 		return it->state;
 
-	if (it->state > 0 || it->ent == NULL)
+	if (it->state > 0 || it->name == NULL)
 		return SQFS_ERROR_NO_ENTRY;
 
-	fd = openat(dirfd(it->dir), it->ent->d_name, O_RDONLY | O_DIRECTORY);
+	fd = openat(dirfd(it->dir), it->name, O_RDONLY | O_DIRECTORY);
 	if (fd < 0) {
 		if (errno == ENOTDIR)
 			return SQFS_ERROR_NOT_DIR;
@@ -198,6 +251,7 @@ static int dir_open_subdir(sqfs_dir_iterator_t *base, sqfs_dir_iterator_t **out)
 static int create_iterator(sqfs_dir_iterator_t **out, DIR *dir)
 {
 	unix_dir_iterator_t *it = calloc(1, sizeof(*it));
+	int ret;
 
 	if (it == NULL) {
 		closedir(dir);
@@ -212,6 +266,14 @@ static int create_iterator(sqfs_dir_iterator_t **out, DIR *dir)
 		free(it);
 		errno = err;
 		return SQFS_ERROR_IO;
+	}
+
+	ret = read_names(it);
+	if (ret != 0) {
+		int err = errno;
+		dir_destroy((sqfs_object_t *)it);
+		errno = err;
+		return ret;
 	}
 
 	sqfs_object_init(it, dir_destroy, NULL);
